@@ -18,7 +18,7 @@ _G = {"kind": [0, 1], "sk": [0, 1, 2, 3], "endmode": [0, 1, 2], "related": [0, 1
 CONDITIONS = (
     shards("relative", "c14.py", "h_relative", dict(_G, rep=[1]), timeout=300, tiers=("quick",),
            what="one relative alarm: anchor (start | end = DTEND/DUE | start+DURATION | RFC default) + TRIGGER + k*DURATION; Alarm.triggers; only documented incomplete-information errors",
-           bound="start any second of 10 Jan (DATE/floating/UTC/absent), end < 12 h later (thorough: 2 days), trigger +-2 days, REPEAT=1 (k=0 and k=1 terms), DURATION<=1 day")
+           bound="start any second of 10 Jan (DATE/floating/UTC/absent), end < 12 h later (thorough: 1 day), trigger +-2 days, REPEAT=1 (k=0 and k=1 terms), DURATION<=1 day")
     + shards("relative", "c14.py", "h_relative", dict(_G, rep=[0, 1, 2]), timeout=900, tiers=("thorough",),
              what="one relative alarm: anchor + TRIGGER + k*DURATION; Alarm.triggers; only documented errors",
              bound="as quick, REPEAT<=2")
